@@ -366,3 +366,31 @@ def alias_priority_obligation(prop="C17", replay=None):
         if replay:
             r.replay = replay()
     return [r]
+
+
+def template_globals_obligation(prop="C17", replay=None):
+    """every page is rendered with *its own* `page_url` (the relurl filter makes the links of a page relative to it).  jinja2 keeps one Template object per file and
+    `env.get_template(name, globals=..)` updates that object's globals in place, so pages that share a template file (all static pages: info_page.html) share the globals of the
+    last call.  BasePage.template therefore has to be looked up at every use: a plain `@property` (no caching decorator) whose body passes `page_url=self.outfile`, and no
+    render / html method stores the template object."""
+    import ast
+    from harness import loader
+    from harness.core import OR, PROVED, REFUTED, UNKNOWN
+    oid = f"{prop}.S.output.BasePage.template.looked_up_with_the_page_s_own_globals_at_every_use"
+    try:
+        fn = loader.find_def("ford.output", "BasePage.template")
+    except loader.TargetMissing as e:
+        return [OR(id=oid, status=UNKNOWN, kind="S", target="ford.output.BasePage.template", detail=str(e))]
+    decos = [ast.unparse(d) for d in fn.decorator_list]
+    calls = [c for c in ast.walk(fn) if isinstance(c, ast.Call) and ast.unparse(c.func).endswith("get_template")]
+    glob_ok = len(calls) == 1 and any(k.arg == "globals" and "page_url=self.outfile" in ast.unparse(k.value).replace(" ", "") for k in calls[0].keywords)
+    _, tree = loader.module_source("ford.output")
+    stored = [ast.unparse(n)[:60] for n in ast.walk(tree) if isinstance(n, ast.Assign) and "self.template" in ast.unparse(n.value) and "render" not in ast.unparse(n.value)]
+    ok = decos == ["property"] and glob_ok and not stored
+    r = OR(id=oid, status=PROVED if ok else REFUTED, kind="S", role="pre", backend="ast", target="ford.output.BasePage.template",
+           desc=f"decorators {decos}; `env.get_template(.., globals=dict(page_url=self.outfile, ..))`: {glob_ok}; template objects stored elsewhere: {stored}")
+    if not ok:
+        r.detail = "a page can be rendered with the page_url of another page that uses the same template file: its relative links start from the wrong directory"
+        if replay:
+            r.replay = replay()
+    return [r]
